@@ -740,15 +740,23 @@ class Machine:
                 return self.render(a[0])
             return UNKNOWN
         if c in ("itertools::join", "itertools::Itertools::join") or c.endswith("Itertools::join"):
-            items = a[0].rest() if isinstance(a[0], Iter) else (a[0] if isinstance(a[0], list) else None)
+            src_ = a[0]
+            if not isinstance(src_, Iter) and (isinstance(src_, PeekableIt) or (isinstance(src_, Enum) and getattr(src_, "adt", None))):
+                src_ = self.materialize(src_) or src_           # an iterator implemented in the crate: its own `next` is run
+            items = src_.rest() if isinstance(src_, Iter) else (src_ if type(src_) is list and "Vec<" in str((tt or {}).get("argtys", [""])[0]) else None)
             sep = a[1] if len(a) > 1 else ""
             if items is None or not isinstance(sep, str):
+                if isinstance(a[0], (Enum, list)):
+                    raise Stuck("join over an iterator that cannot be enumerated")
                 return UNKNOWN
             parts = []
             for i, it in enumerate(items):
                 if i:
                     parts.append(sep)
-                parts.append(it if isinstance(it, (str, Text)) else Hole(it))
+                it = absint.deref(it)
+                # (join writes every item with its Display impl)
+                parts.append(it if isinstance(it, (str, Text)) else (self.display(it, "", "display") if isinstance(it, Enum) and getattr(it, "adt", None)
+                                                                     else Hole(it)))
             return Text(parts).flat()
         if c.endswith("Formatter::write_fmt") or (end == "write_fmt" and ("io::Write" in c or "fmt::Write" in c)):
             if len(a) > 1 and isinstance(a[1], FmtArguments):
